@@ -538,8 +538,9 @@ func (w *world) live(i int) []int {
 // tracker is the bookkeeping about handles that the generator and the case runner share; it is
 // derived from the container/list world only.
 type tracker struct {
-	std   *world
-	stale map[int]bool
+	std     *world
+	stale   map[int]bool
+	tainted [2]bool // a stale handle was applied to the list since its last Init
 }
 
 func (t *tracker) kind(id int, l int) string {
@@ -588,10 +589,39 @@ func (t *tracker) kinds(f []string) []string {
 	return out
 }
 
-func (t *tracker) before(f []string) {
+// before does the bookkeeping that has to precede the call: Init makes the list's elements stale and the
+// list itself clean again (nothing is reachable from its sentinel any more); a call that hands list L a stale
+// handle taints L until its next Init: its ring may be corrupted in ways no observation shows (Len == 0 hides
+// a non-empty ring, Back() can be the sentinel while Front() is an element).
+func (t *tracker) before(f []string, kinds []string) {
+	l := li(f[1])
 	if f[0] == "init" {
-		for _, id := range t.std.live(li(f[1])) {
+		for _, id := range t.std.live(l) {
 			t.stale[id] = true
+		}
+		if t.tainted[l] {
+			// on a tainted list the walk does not show every element whose list pointer is l (Len == 0 hides the
+			// ring, elements inserted meanwhile may be unreachable): everything that is not visibly in the other
+			// list counts as stale from here on
+			other := map[int]bool{}
+			if !t.tainted[1-l] {
+				for _, id := range t.std.live(1 - l) {
+					other[id] = true
+				}
+			}
+			for id := 3; id < t.std.fresh; id++ {
+				if !other[id] {
+					t.stale[id] = true
+				}
+			}
+		}
+		t.tainted[l] = false
+
+		return
+	}
+	for _, k := range kinds {
+		if k == "stale" {
+			t.tainted[l] = true
 		}
 	}
 }
@@ -639,7 +669,8 @@ func runCase(r *hx.Run, sub uint64, ops []string) {
 			wild = true
 			r.Count("case:went-wild")
 		}
-		if wild && (f[0] == "pbl" || f[0] == "pfl") && !(std.sane(li(f[1])) && std.sane(li(f[2]))) {
+		if wild && (f[0] == "pbl" || f[0] == "pfl") &&
+			(t.tainted[li(f[1])] || t.tainted[li(f[2])] || !(std.sane(li(f[1])) && std.sane(li(f[2])))) {
 			r.Count("case:stopped-pushlist-on-corrupt-ring")
 
 			break
@@ -651,7 +682,7 @@ func runCase(r *hx.Run, sub uint64, ops []string) {
 
 			break
 		}
-		t.before(f)
+		t.before(f, kinds)
 		trail = append(trail, op)
 		lastTrail.Store(strings.Join(trail, "; "))
 		sres, sobs := std.do(f)
@@ -847,7 +878,7 @@ func genCase(rng *hx.Rng, n int, mode int) []string {
 		if !room && (f[0] == "pf" || f[0] == "pb" || f[0] == "ib" || f[0] == "ia" || f[0] == "pbl" || f[0] == "pfl") {
 			continue
 		}
-		t.before(f)
+		t.before(f, t.kinds(f))
 		std.do(f)
 		ops = append(ops, op)
 	}
